@@ -42,6 +42,9 @@ fn check(rep: &mut Report, b: &Build, cls: &str) {
     }
     let mut outs: Vec<Outcome> = Vec::new();
     let mut logs = Vec::new();
+    // the two runs that are compared use parsers obtained the same way (alternating per call)
+    static CT: std::sync::atomic::AtomicU64 = std::sync::atomic::AtomicU64::new(0);
+    let _pin = mon::pin_ctor(CT.fetch_add(1, std::sync::atomic::Ordering::Relaxed) / 2);
     for decode in [false, true] {
         let mut p = Parser::new();
         let mut log = Vec::new();
